@@ -14,12 +14,15 @@ Model of the production templates of `/repo/ak/llparser.py` and of the default c
                        — `ProdSequence.gen_productions`, `LLParser._process_seq_telement` and its use by the
                          parse loop (innermost node first).
 * `mkSquashData`       — `StdCleanuper._make_squash_data` (on the factorised `prods_map`, given as data).
-* `cleanup` (+ `transformList`, `parseTail`, `transformMap`, `parseKvTail`, `parseKvPair`)
-                       — `StdCleanuper._cleanup` and the `transform_t_elem` methods. The Python code mutates the
+* `cleanup` (+ `cleanSeq`, `transformList`, `parseTail`, `transformMap`, `parseKvTail`, `parseKvPair`)
+                       — `StdCleanuper._cleanup` (with the repair 04414b3: the elements of a flattened sequence are cleaned
+                         in place) and the `transform_t_elem` methods. The Python code mutates the
                          element in place and returns the "must not be squashed" flag; the model returns the
                          new `(name, _is_leaf, value)` and the flag. `t_elem.value[pos]` followed by a recursive
                          call is `itemAt`/`tailAt`/`kvAt`/`kvTailAt` (walk to position `pos`, `IndexError`
                          behind the end), so that the whole family is structurally recursive on the tree.
+
+* `conforms`, `wellTyped` — executable hypotheses of the theorems (the driver evaluates them on every real raw tree).
 
 Names are `List Char`. Dict keys: `None` and `str` compare by value, a `TElement` key compares by identity
 (two different nodes of a tree are never equal), `list`/`dict` keys are unhashable (`TypeError`).
@@ -562,6 +565,26 @@ def conforms (P : Prods) : Val → Bool
 def conformsAll (P : Prods) : List Val → Bool
   | [] => true
   | x :: xs => conforms P x && conformsAll P xs
+end
+
+mutual
+/-- the tree is built from `TElement`s the way the parser builds them: a leaf holds `None`, token text or (flattened
+sequence) a list of elements; an inner node holds a non-empty list of elements; a squash symbol (that is not a
+template) has exactly one child -/
+def wellTyped (cl : Cleanuper) : Val → Bool
+  | .elem name leaf v =>
+    match leaf, v with
+    | true, .none => true
+    | true, .str _ => true
+    | true, .list xs => wellTypedAll cl xs
+    | false, .list xs =>
+      !xs.isEmpty && wellTypedAll cl xs &&
+        (if name ∈ cl.squash ∧ (lookup cl.templates name).isNone then xs.length == 1 else true)
+    | _, _ => false
+  | _ => false
+def wellTypedAll (cl : Cleanuper) : List Val → Bool
+  | [] => true
+  | x :: xs => wellTyped cl x && wellTypedAll cl xs
 end
 
 end Templates
